@@ -1,5 +1,5 @@
 (* C20 -- typed reads return exactly the requested number of items or an error. *)
-From TM Require Import Base Frame Pdu Framed Client ClientProofs TypedProofs.
+From TM Require Import Base Frame Pdu Framed Client ClientProofs TypedProofs Totality.
 
 Theorem C20_exact_count_bits : forall req r bs,
   typed_post req r = TRBits bs ->
@@ -42,6 +42,12 @@ Theorem C20_typed_is_call_then_post : forall p m st req bg,
   | c => TRErr c
   end.
 Proof. exact typed_result_shape. Qed.
+
+(* the whole typed method, for EVERY client state and EVERY behaviour of the transport (any reply bytes in any chunking, cut short,
+   followed by end of stream or a read error, any write behaviour): a result, never a panic *)
+Theorem C20_typed_never_panics_on_any_transport : forall p m st req bg,
+  is_typed_req req = true -> fst (typed p m st req bg) <> TRErr CRPanic.
+Proof. exact typed_no_panic. Qed.
 
 Example C20_ex : typed_post (ReqReadHoldingRegisters 0 3) (RspReadHoldingRegisters [7]) = TRErr (CRTransport KInvalidData)
   /\ typed_post (ReqReadCoils 0 3) (RspReadCoils [true; false; true; false; false; false; false; false]) = TRBits [true; false; true].
